@@ -205,13 +205,19 @@ QueryOutcomes(S, q) ==
            : a \in AC!Outcomes(S.acc, AReq(q))}
 
 \* ----------------------------------------------- what a query leaves behind
-\* IgnoreAnonCore speaks of ONE persistent client P and one sender; here P is
-\* whoever the registry attributes the request to.
-IACfg(S, q, c) ==
-    [ignQ |-> S.q.ign, ignS |-> S.s.ign,
-     client |-> IF Known(c) THEN [kind |-> "ip", addr |-> AddrRec(q.addr)] ELSE [kind |-> "none"],
-     flagQ |-> Known(c) /\ c.ignQ, flagS |-> Known(c) /\ c.ignS,
-     anon |-> S.q.anon, qlogOn |-> S.q.on, statsOn |-> S.s.on, refuseAny |-> FALSE]
+\* IgnoreAnonCore decides from ITS view of the registry (a set of
+\* [id, flagQ, flagS], the most specific identifier owning a sender): every
+\* identifier of every client of the shared registry, translated to its
+\* vocabulary.  The pipeline's settings come from ClientsCore's attribution,
+\* the ignore decision from IgnoreAnonCore's: AdGuardHome!AttributionsAgree
+\* checks that the two modules pick the same client.
+IAId(id) == CASE id[1] = "cid" -> [kind |-> "cid", cid |-> CidStr(id[2])]
+              [] id[1] = "ip"  -> [kind |-> "ip", addr |-> AddrRec(id[2])]
+              [] id[1] = "net" -> [kind |-> "cidr", fam |-> "v4", bits |-> SubSeq(BitsOf(id[2]), 1, id[3])]
+IAReg(reg) == UNION {{[id |-> IAId(id), flagQ |-> c.ignQ, flagS |-> c.ignS] : id \in c.ids} : c \in reg}
+IACfg(S) ==
+    [ignQ |-> S.q.ign, ignS |-> S.s.ign, client |-> [kind |-> "none"], flagQ |-> FALSE, flagS |-> FALSE,
+     anon |-> S.q.anon, qlogOn |-> S.q.on, statsOn |-> S.s.on, refuseAny |-> FALSE, extra |-> IAReg(S.reg)]
 IAQ(q) == [name |-> q.name, addr |-> AddrRec(q.addr), cid |-> CidStr(q.cid), qt |-> q.qt]
 
 IsBlockedReason(r) == r \in {"FilteredBlackList", "FilteredBlockedService"}
@@ -234,7 +240,7 @@ CommitWith(S, q, o, c, ic, saddr) ==
                         cli |-> Bump(@.cli, key)]]
 Commit(S, q, o) ==
     CHOOSE s \in {CommitWith(S, q, o, c, ic, NumOf(IA!StoredAddr(ic, IAQ(q)).bits))
-                  : c \in {Who(S.reg, q.cid, q.addr)}, ic \in {IACfg(S, q, Who(S.reg, q.cid, q.addr))}} : TRUE
+                  : c \in {Who(S.reg, q.cid, q.addr)}, ic \in {IACfg(S)}} : TRUE
 
 \* ------------------------------------------------------------- the actions
 \* Each yields the SET of admissible [S, out]; out is the outcome record of a
@@ -312,11 +318,14 @@ ItemMatches(x, o) ==
     /\ (o.hasinfo => o.who \in x.names /\ o.dis \in x.dis)
 
 \* The observed view is the expected one with, at most, "may" items missing.
+\* (Both branches are tried: an optional item can look exactly like the
+\* obligatory one next to it -- two queries that differ only in the address
+\* bits anonymisation removes -- and only one of them is shown.)
 RECURSIVE ViewOK(_, _, _, _)
 ViewOK(xs, i, os, j) ==
     IF i > Len(xs) THEN j > Len(os)
-    ELSE IF j <= Len(os) /\ ItemMatches(xs[i], os[j]) THEN ViewOK(xs, i + 1, os, j + 1)
-    ELSE xs[i].may /\ ViewOK(xs, i + 1, os, j)
+    ELSE \/ j <= Len(os) /\ ItemMatches(xs[i], os[j]) /\ ViewOK(xs, i + 1, os, j + 1)
+         \/ xs[i].may /\ ViewOK(xs, i + 1, os, j)
 LogOK(S, os) == \E xs \in {LogView(S)} : ViewOK(xs, 1, os, 1)
 
 \* ---------------------------------------------------- GET /control/stats
